@@ -10,7 +10,7 @@ from math import pi, sqrt
 
 # Requires that the pyparsing module is installed.
 
-from pyparsing import (Literal, Optional, White, Regex,
+from pyparsing import (Literal, Optional, White, Regex, Empty,
                        ZeroOrMore, OneOrMore, Forward, StringEnd, Group)
 
 from .core import default_table, isatom, isisotope, change_table
@@ -724,7 +724,15 @@ def formula_grammar(table):
     # Convert "(composite) count" to a pair
     opengrp = space + Literal('(').suppress() + space
     closegrp = space + Literal(')').suppress() + space
-    explicit_group = opengrp + composite + closegrp + count
+    # Note: a count separated from the closing parenthesis by a space is the
+    # leading count of the next group if it is followed by an element, so
+    # "(HO) 2H" is (HO) + 2H rather than (HO)2 + H.
+    number = fract|whole
+    group_count = ((~White() + number)
+                   | (White().suppress() + number + ~Regex("[A-Z]"))
+                   | Empty().setParseAction(lambda s, l, t: 1))
+    explicit_group = (opengrp + composite + space + Literal(')').suppress()
+                      + group_count)
     def convert_explicit(string, location, tokens):
         """convert (fragment)count"""
         #print "explicit", tokens
